@@ -20,20 +20,17 @@ fn other2<D>(deps: &D, x: i32) -> String {
         ::vt::emit("exit", &format!("\"f\":{},\"val\":{}", ::vt::js(&__f), ::vt::js(&__val)));
         __val
     }
-#[::entrait::entrait(TrImpl, delegate_by = DelegateTr)]
-#[::async_trait::async_trait]
+#[::entrait::entrait(TrImpl, delegate_by = ref)]
 pub trait Tr {
-    async fn m1(&self, a1: i32) -> String;
+    fn m1(&self, a1: &str) -> String;
 }
-pub struct X1;
-#[::entrait::entrait]
-#[::async_trait::async_trait]
-impl TrImpl for X1 {
-    pub async fn m1(deps: &(impl Other1 + Other2), a1: i32) -> String {
+#[::entrait::entrait(ref)]
+impl TrImpl for X<P1> {
+    pub fn m1(deps: &(impl Other1 + Other2), a1: &str) -> String {
         let __f: String = String::from("target:X1::m1");
-        let __args: String = String::new() + &::vt::js(&format!("{:?}", a1));
+        let __args: String = String::new() + &::vt::js(&a1.to_string());
         ::vt::emit("enter", &format!("\"f\":{},\"deps\":{},\"args\":[{}]", ::vt::js(&__f), ::vt::js(&::vt::addr(deps)), __args));
-        ::vt::yield_once().await;
+        
         ::vt::emit("call", &format!("\"m\":\"other1\",\"recv\":{},\"args\":[\"101\"]", ::vt::js(&::vt::addr(deps))));
         let __n1 = deps.other1(101);
         ::vt::emit("ret", &format!("\"m\":\"other1\",\"val\":{}", ::vt::js(&__n1)));
@@ -46,15 +43,13 @@ impl TrImpl for X1 {
         __val
     }
 }
-pub struct X2;
-#[::entrait::entrait]
-#[::async_trait::async_trait]
-impl TrImpl for X2 {
-    pub async fn m1(deps: &(impl Other1 + Other2), a1: i32) -> String {
+#[::entrait::entrait(ref)]
+impl TrImpl for X<P2> {
+    pub fn m1(deps: &(impl Other1 + Other2), a1: &str) -> String {
         let __f: String = String::from("target:X2::m1");
-        let __args: String = String::new() + &::vt::js(&format!("{:?}", a1));
+        let __args: String = String::new() + &::vt::js(&a1.to_string());
         ::vt::emit("enter", &format!("\"f\":{},\"deps\":{},\"args\":[{}]", ::vt::js(&__f), ::vt::js(&::vt::addr(deps)), __args));
-        ::vt::yield_once().await;
+        
         ::vt::emit("call", &format!("\"m\":\"other1\",\"recv\":{},\"args\":[\"101\"]", ::vt::js(&::vt::addr(deps))));
         let __n1 = deps.other1(101);
         ::vt::emit("ret", &format!("\"m\":\"other1\",\"val\":{}", ::vt::js(&__n1)));
@@ -68,24 +63,24 @@ impl TrImpl for X2 {
     }
 }
 pub struct A; pub struct B; pub struct NoSel;
-impl DelegateTr<Self> for A { type Target = X1; }
-impl DelegateTr<Self> for B { type Target = X2; }
+pub struct P1; pub struct P2; pub struct X<P>(pub ::core::marker::PhantomData<P>);
+unsafe impl<P> Sync for X<P> {}
+static XP1: X<P1> = X(::core::marker::PhantomData);
+static XP2: X<P2> = X(::core::marker::PhantomData);
+impl AsRef<dyn TrImpl<Self>> for A { fn as_ref(&self) -> &(dyn TrImpl<Self> + 'static) { &XP1 } }
+impl AsRef<dyn TrImpl<Self>> for B { fn as_ref(&self) -> &(dyn TrImpl<Self> + 'static) { &XP2 } }
 pub fn run() {
     { ::vt::emit("scenario", "\"case\":\"c001367\",\"sc\":1");
       let app = ::entrait::Impl::new(A);
-      ::vt::emit("call", &format!("\"m\":\"m1\",\"recv\":{},\"args\":[\"857\"]", ::vt::js(&::vt::addr(&app))));
-      let fut = Tr::m1(&app, 857);
-      ::vt::emit("future", "\"m\":\"m1\"");
-      let r = ::vt::block_on(fut);
+      ::vt::emit("call", &format!("\"m\":\"m1\",\"recv\":{},\"args\":[\"r857\"]", ::vt::js(&::vt::addr(&app))));
+      let r = Tr::m1(&app, "r857");
       let r: String = r.to_string();
       ::vt::emit("ret", &format!("\"m\":\"m1\",\"val\":{}", ::vt::js(&r)));
       ::vt::emit("end", &format!("\"panicked\":false,\"result\":{}", ::vt::js(&r))); }
     { ::vt::emit("scenario", "\"case\":\"c001367\",\"sc\":2");
       let app = ::entrait::Impl::new(B);
-      ::vt::emit("call", &format!("\"m\":\"m1\",\"recv\":{},\"args\":[\"-826\"]", ::vt::js(&::vt::addr(&app))));
-      let fut = Tr::m1(&app, -826);
-      ::vt::emit("future", "\"m\":\"m1\"");
-      let r = ::vt::block_on(fut);
+      ::vt::emit("call", &format!("\"m\":\"m1\",\"recv\":{},\"args\":[\"r-826\"]", ::vt::js(&::vt::addr(&app))));
+      let r = Tr::m1(&app, "r-826");
       let r: String = r.to_string();
       ::vt::emit("ret", &format!("\"m\":\"m1\",\"val\":{}", ::vt::js(&r)));
       ::vt::emit("end", &format!("\"panicked\":false,\"result\":{}", ::vt::js(&r))); }
